@@ -21,6 +21,11 @@
 (***************************************************************************)
 EXTENDS Table
 
+\* TRUE models the reducer before the repair of the same-production fold (solutions of
+\* one production with different path lengths were folded without the prefix test);
+\* kept so that the model can be shown to bite (MCI_GLR_asfound.cfg)
+CONSTANT AsFoundFold
+
 EmptyGSS(T) == [nodes |-> <<[st |-> 0, pos |-> 0]>>, edges |-> <<>>,
                 sub |-> [q \in TStates(T) |-> 0]]
 
@@ -54,7 +59,7 @@ Paths(g, r) ==
 
 StartHead(g, r) == IF r.n = 0 THEN r.node ELSE g.edges[r.edge].head
 
-SamePrefix(a, b) == \A i \in 1 .. (IF Len(a) < Len(b) THEN Len(a) ELSE Len(b)) : a[i] = b[i]
+SamePrefix(a, b) == AsFoundFold \/ \A i \in 1 .. (IF Len(a) < Len(b) THEN Len(a) ELSE Len(b)) : a[i] = b[i]
 
 \* register the actions of a (new) solution: X = [g, red, sh, acc]
 RegisterActions(T, X, la, h, e, headCreated, edgeCreated) ==
